@@ -14,13 +14,14 @@ func init() {
 	register(&core.Spec{
 		ID: "C33",
 		Explanation: "Decides the normal-form clause of C33 as a constructor discipline inside pkg/ui: (NF-BUILDER) a styled Text may be assembled by hand (composite literal, make, append, slice conversion) only inside the normalising API - TextBuilder's methods, TextFromSegment and the variadic Concat - or as a single-segment literal whose text is known non-empty from a dominating check; every other hand-assembly site is either audited with the reason why it preserves normal form, or reported. Today's tree has one reported site, StyleText (restyling can make neighbouring segments equal; the existing unit test pins that output, so it is recorded as a known finding rather than repaired). Content equalities (partitions/splits concatenate back) and the styledown round trip are not decided.",
-		NotCovered:  "plain content of the results; styledown render/parse round trip; Text values assembled outside pkg/ui",
-		Rules:       []string{"NF-BUILDER: who may assemble a ui.Text by hand", "BUILDER-FRESH: TextBuilder.Text returns nil or freshly allocated storage, never the builder's own array", "SLICE-NONEMPTY: a two-bound slice of a styled text is returned only when its bounds differ (an empty text is nil)"},
-		Patterns:    []string{"./pkg/ui/..."},
-		Run:         func(p *core.Program, r *core.Report) { runC33(p, r); runBuilderFresh(p, r); runSliceNonEmpty(p, r) },
-		MinCounts:   map[string]int{"NF-BUILDER": 6, "BUILDER-FRESH": 1, "SLICE-NONEMPTY": 1},
+		NotCovered:  "plain content of the results; styledown render/parse round trip (a text with a zero-width character is derendered to styledown that the renderer rejects - observed, outside the reach of these rules); Text values assembled outside pkg/ui other than by element stores",
+		Rules:       []string{"NF-BUILDER: who may assemble a ui.Text by hand", "BUILDER-FRESH: TextBuilder.Text returns nil or freshly allocated storage, never the builder's own array", "SLICE-NONEMPTY: a two-bound slice of a styled text is returned only when its bounds differ (an empty text is nil)", "TEXT-ELEM-STORE: outside pkg/ui no segment of a styled text is replaced in place"},
+		Patterns:    []string{"./pkg/ui/...", "./pkg/eval"},
+		Run:         func(p *core.Program, r *core.Report) { runC33(p, r); runBuilderFresh(p, r); runSliceNonEmpty(p, r); runTextElemStore(p, r) },
+		MinCounts:   map[string]int{"NF-BUILDER": 6, "BUILDER-FRESH": 1, "SLICE-NONEMPTY": 1, "TEXT-ELEM-STORE": 1},
 		Trusted:     append([]string{"the normalising API itself (TextBuilder, TextFromSegment, Concat) is the trusted base of this rule"}, trustedBase...),
 		Controls: []core.Control{
+			{Name: "revert-fix-styled-function-stores-segments", Rule: "TEXT-ELEM-STORE", File: "pkg/eval/builtin_fn_styled.go", Old: "\t\t\t\t\ttb.WriteText(ui.TextFromSegment(styledSegment))\n", New: "\t\t\t\t\ttb.WriteText(ui.TextFromSegment(styledSegment))\n\t\t\t\t\ttext[0] = styledSegment\n", Fire: true, Want: "styled", Quick: true},
 			{Name: "revert-fix-empty-slice-of-text", Rule: "SLICE-NONEMPTY", File: "pkg/ui/text.go", Old: "\t\tif index.Lower == index.Upper {\n\t\t\t// An empty text is always nil.\n\t\t\treturn Text(nil), nil\n\t\t}\n", New: "", Fire: true, Want: "Index"},
 			{Name: "builder-hands-out-its-own-array", Rule: "BUILDER-FRESH", File: "pkg/ui/text_builder.go", Old: "\tt := append(Text(nil), tb.segs...)\n\treturn append(t, &Segment{tb.style, tb.text.String()})", New: "\treturn append(tb.segs, &Segment{tb.style, tb.text.String()})", Fire: true, Want: "TextBuilder"},
 			{Name: "benign-builder-copies-with-make", Rule: "BUILDER-FRESH", File: "pkg/ui/text_builder.go", Old: "\tt := append(Text(nil), tb.segs...)\n\treturn append(t, &Segment{tb.style, tb.text.String()})", New: "\tt := make(Text, len(tb.segs), len(tb.segs)+1)\n\tcopy(t, tb.segs)\n\treturn append(t, &Segment{tb.style, tb.text.String()})", Fire: false},
